@@ -25,19 +25,19 @@ UNIT = {"spot_price": "P", "crypto_in": "U", "crypto_fee": "U", "crypto_out_no_f
         "crypto_received": "U", "fiat_in_no_fee": "UP", "fiat_in_with_fee": "UP", "fiat_fee": "UP", "fiat_out_no_fee": "UP"}
 HEADER_TEXT = "Column title"
 
-E = {"k": "e", "n": 0, "s": "", "off": 0, "tz": False}
+E = {"k": "e", "n": 0, "s": "", "off": 0, "tz": False, "us": 0}
 
 
 def cn(n):
-    return {"k": "n", "n": int(n), "s": "", "off": 0, "tz": False}
+    return {"k": "n", "n": int(n), "s": "", "off": 0, "tz": False, "us": 0}
 
 
 def cs(s):
-    return {"k": "s", "n": 0, "s": s, "off": 0, "tz": False}
+    return {"k": "s", "n": 0, "s": s, "off": 0, "tz": False, "us": 0}
 
 
-def ct(t, off, tz=True):
-    return {"k": "t", "n": int(t), "s": "", "off": int(off), "tz": bool(tz)}
+def ct(t, off, tz=True, us=0):
+    return {"k": "t", "n": int(t), "s": "", "off": int(off), "tz": bool(tz), "us": int(us)}
 
 
 def default_layout():
@@ -75,7 +75,7 @@ def tx_cells(x, pos, layout, rnd=None, asset=ASSET, width=None, uid=None):
     tbl = x["cls"]
     lay = layout[tbl]
     width = width or (max(max(l.values()) for l in layout.values()) + 2)
-    vals = {"timestamp": ct(x["t"], x["off"]), "asset": cs(asset), "unique_id": cs(uid or f"t{pos + 1}"), "notes": cs(f"note {pos + 1}")}
+    vals = {"timestamp": ct(x["t"], x["off"], us=x.get("us", 0)), "asset": cs(asset), "unique_id": cs(uid or f"t{pos + 1}"), "notes": cs(f"note {pos + 1}")}
     if tbl == "in":
         e, h = acct_names(x["a1"])
         vals.update(exchange=cs(e), holder=cs(h), transaction_type=cs(x["type"]), spot_price=cn(x["price"]), crypto_in=cn(x["amt"]))
@@ -183,15 +183,27 @@ def _put(target, cell, field, U, P, type_case):
     elif k == "s":
         target.set_value(type_case(cell["s"]) if field == "transaction_type" else cell["s"])
     elif k == "t":
-        s = ts_string(cell["n"], cell["off"])
-        target.set_value(s if cell["tz"] else s[:19])
+        s = ts_string(cell["n"], cell["off"], cell.get("us", 0))
+        target.set_value(s if cell["tz"] else _strip_zone(s))
+
+
+def _strip_zone(s):
+    """the timestamp text without its UTC offset"""
+    import re  # pylint: disable=import-outside-toplevel
+
+    return re.sub(r"[+-]\d\d:\d\d$", "", s)
 
 
 # ---- observation of what rp2 parsed -----------------------------------------------------------
 def _tsobs(dt):
+    """(whole seconds since the epoch of the specification, UTC offset, True) - the sub-second part is reported separately by _us"""
     off = int(dt.utcoffset().total_seconds())
-    t = (dt - BASE).total_seconds()
-    return int(t), off, float(t) == int(t)
+    d = dt - BASE
+    return d.days * 86400 + d.seconds, off, True
+
+
+def _us(dt):
+    return int(dt.microsecond)
 
 
 def _uid(s):
@@ -205,7 +217,7 @@ def observe_input(idata, al):
     for t in idata.unfiltered_in_transaction_set:
         tt, off, ok = _tsobs(t.timestamp)
         exact = exact and ok
-        ins.append({"row": t.row, "t": tt, "off": off, "type": t.transaction_type.value, "exch": t.exchange, "holder": t.holder,
+        ins.append({"row": t.row, "t": tt, "us": _us(t.timestamp), "off": off, "type": t.transaction_type.value, "exch": t.exchange, "holder": t.holder,
                     "price": al._int(Fraction(t.spot_price) / al.P), "amt": al.amt(t.crypto_in), "cfee": al.amt(t.crypto_fee),
                     "ffee": al._int(Fraction(t.fiat_fee) / (al.U * al.P)), "fin": al._int(Fraction(t.fiat_in_no_fee) / (al.U * al.P)),
                     "fwf": al._int(Fraction(t.fiat_in_with_fee) / (al.U * al.P)), "uid": _uid(t.unique_id)})
@@ -214,7 +226,7 @@ def observe_input(idata, al):
         tt, off, ok = _tsobs(t.timestamp)
         exact = exact and ok
         art = t.row < 0
-        outs.append({"row": 0 if art else t.row, "t": tt, "off": off, "type": t.transaction_type.value, "exch": t.exchange, "holder": t.holder,
+        outs.append({"row": 0 if art else t.row, "t": tt, "us": _us(t.timestamp), "off": off, "type": t.transaction_type.value, "exch": t.exchange, "holder": t.holder,
                      "price": al._int(Fraction(t.spot_price) / al.P), "amt": al.amt(t.crypto_out_no_fee), "cfee": al.amt(t.crypto_fee),
                      "owf": al.amt(t.crypto_out_with_fee), "fout": al._int(Fraction(t.fiat_out_no_fee) / (al.U * al.P)),
                      "ffee": al._int(Fraction(t.fiat_fee) / (al.U * al.P)), "uid": _uid(t.unique_id),
@@ -222,7 +234,7 @@ def observe_input(idata, al):
     for t in idata.unfiltered_intra_transaction_set:
         tt, off, ok = _tsobs(t.timestamp)
         exact = exact and ok
-        intras.append({"row": t.row, "t": tt, "off": off, "fe": t.from_exchange, "fh": t.from_holder, "te": t.to_exchange, "th": t.to_holder,
+        intras.append({"row": t.row, "t": tt, "us": _us(t.timestamp), "off": off, "fe": t.from_exchange, "fh": t.from_holder, "te": t.to_exchange, "th": t.to_holder,
                        "price": al._int(Fraction(t.spot_price) / al.P), "sent": al.amt(t.crypto_sent), "recv": al.amt(t.crypto_received),
                        "ffee": al._int(Fraction(t.fiat_fee) / (al.U * al.P)), "uid": _uid(t.unique_id)})
     return {"status": "ok", "ins": ins, "outs": outs, "intras": intras, "ex": bool(al.exact and exact)}
